@@ -203,6 +203,9 @@ class Concretiser:
         if a not in self.lits:
             vals = {lit_value(s) for s in self.lits.values()}
             r = self._r("lit", a)
+            if getattr(self, "zero_literals", False) and 0 not in vals and r.random() < 0.2:
+                self.lits[a] = r.choice(["0", "0.0", "0.0000", "0."])
+                return self.lits[a]
             for _ in range(1000):
                 s = r.choice(LITERAL_SPELLINGS)
                 v = lit_value(s)
